@@ -493,6 +493,13 @@ Fixpoint peek_ok (ops : list op) (os : list obs) (exc lastv : option Z) : bool :
   | _, _ => true
   end.
 
+(* closed cases (every pending await of the script gets its completion): the last accepted answer is not Pending *)
+Definition no_trailing_pend (os : list obs) : bool :=
+  match filter ok (rev os) with
+  | o :: _ => match o_res o with RPend => false | _ => true end
+  | [] => true
+  end.
+
 Definition gen_oracle (ha : bool) (wops wobs : list (list Z)) : bool :=
   let ops := map (decode ha) wops in
   let os := map dec_obs wobs in
@@ -501,6 +508,7 @@ Definition gen_oracle (ha : bool) (wops wobs : list (list Z)) : bool :=
       Nat.eqb (length ops) (length os)
       && no_bad os
       && peek_ok ops os None None
+      && no_trailing_pend os
       && conforms (visible ha (log_of ops os 0)) (visible ha (spec sc (call_args ops os))) 0
       && (if closed_by_destroy ops os
           then balanced (all_events os) && (sumz (map o_news os) =? 1) && (sumz (map o_dels os) =? 1)
